@@ -18,6 +18,7 @@ import EdbVerif.Lemmas.Tx
 import EdbVerif.Lemmas.TxProto
 import EdbVerif.Lemmas.TxPool
 import EdbVerif.Lemmas.TxDetached
+import EdbVerif.Lemmas.TxClient
 
 namespace EdbVerif.C09
 open EdbVerif.Tx
@@ -380,6 +381,42 @@ theorem protocol_start_fault_counterexample :
     ((Server.runAll (Server.init ⟨1, 2, 3, 4⟩) cexStart).2.getLast?.map (·.outcome)) =
       some (.rejected .inTxError) ∧
     (((PSpec.init ⟨1, 2, 3, 4⟩).run cexStart).2.getLast?.map (·.cls)) = some .ok := by
+  decide
+
+/-! ### Session state sent by the client (`decode_state`)
+
+Every Execute message carries the client's session state; the server installs its aliases / config
+into its view before parsing (also inside a block) and sends them to `compile_in_tx` as
+`request.modaliases / session_config`, which applies them to the compiler state ("session
+differences") BEFORE `sync_tx`.  `CEv.cs = none`: the client echoes what the server reported (the
+assumption of everything above). -/
+
+/-- A client-side change of the session state is honoured — the statement sent along is compiled
+    with it, the coupling is kept — whenever the compiler state the server holds is already at
+    the server's transaction id (`Server.settled`: no `sync_to_savepoint` pending), or outside a
+    block. -/
+theorem client_state_settled (S : Server) (p : PSpec) (hR : Rel S p) (hs : S.settled) (e : CEv)
+    (hcov : (p.clientState e.cs).covers e.ev = true) :
+    Rel (S.stepC e).1 (p.stepC e).1 ∧
+    (S.stepC e).2.agrees { cls := (p.stepC e).2, exposed := (p.clientState e.cs).exposed,
+                           healthy := (p.clientState e.cs).healthy } :=
+  Tx.stepOk_client hR hs e hcov
+
+/-- Right after a ROLLBACK TO it is not (key `proto:client-state-after-rollback-to`):
+    `START; SAVEPOINT 1; ROLLBACK TO 1; <query, sent with new aliases 7>; <query>`.
+    `compile_in_tx` applies the request's aliases to `_current` and then `sync_tx` →
+    `sync_to_savepoint` replaces `_current` by the savepoint's state: the first statement after
+    the ROLLBACK TO is compiled with the savepoint's aliases (3), not the client's (7); the
+    second one is right again (the differences are re-applied, no sync pending). -/
+def cexClientState : List CEv :=
+  [ { ev := { stmt := .start } }, { ev := { stmt := .declare 1 } }, { ev := { stmt := .rollbackTo 1 } },
+    { cs := some (7, 4), ev := { stmt := .query } }, { ev := { stmt := .query } } ]
+
+theorem client_state_after_rollback_to_counterexample :
+    (Server.runAllC (Server.init ⟨1, 2, 3, 4⟩) cexClientState).2.map (·.against) =
+      [some ⟨1, 2, 3, 4⟩, some ⟨1, 2, 3, 4⟩, some ⟨1, 2, 3, 4⟩, some ⟨1, 2, 3, 4⟩, some ⟨1, 2, 7, 4⟩] ∧
+    ((PSpec.init ⟨1, 2, 3, 4⟩).runC cexClientState).2.map (·.exposed) =
+      [⟨1, 2, 3, 4⟩, ⟨1, 2, 3, 4⟩, ⟨1, 2, 3, 4⟩, ⟨1, 2, 7, 4⟩, ⟨1, 2, 7, 4⟩] := by
   decide
 
 /-! ## The compiler pool's REUSE_LAST_STATE_MARKER transport
